@@ -10,8 +10,8 @@ Package, Module -> the Utf8 at their index; loadable entries and ConstantValue e
 has the prescribed kind and everything it points to resolves; otherwise Err (never a panic).
 
 The string newtypes are opaque; `X::try_from(JavaString)` is an opaque partial function sp_X of the string.  as_dynamic / as_invoke_dynamic
-(recursion through bootstrap arguments without a measure) and the two closures `.and_then(|(name, desc)| ..)` of get_field_name_and_type /
-get_method_name_and_type are outside: assumed contracts, listed as trusted."""
+(recursion through bootstrap arguments without a measure) are outside: assumed contracts, listed as trusted.  The closures
+`.and_then(|(name, desc)| ..)` of get_field_name_and_type / get_method_name_and_type are desugared to a match (the meaning of Result::and_then)."""
 from vx.unit import C
 from vx.units._cread import add_classread
 from vx.units import rpool as RP
@@ -185,15 +185,15 @@ def build(u):
          ensures=[C('C01.resolve.get_utf8_ref.ok-iff', 'res.is_ok() <==> r_utf8(*self, index) is Some'), C('C01.resolve.get_utf8_ref.value', 'res matches Ok(s) ==> Some(*s) == r_utf8(*self, index)')])
     u.fn(P, 'PoolRead::get_utf8', ret='res', rewrites=strip + [(r'(self\.get\(index\)\?\.as_utf8\(\))\.cloned\(\)', r'res_cloned(\1)')], ensures=cl('get_utf8', iff('r_utf8(*self, index)')))
     # the two name-and-type accessors use closures (`.and_then(|(name, desc)| ..)`): assumed
-    u.fn(P, 'PoolRead::get_field_name_and_type', ret='res', drop_body=True, props=[], ensures=[C('assumed.get_field_name_and_type.' + str(i), t) for i, t in enumerate(iff('r_field_nat(*self, index)'))])
-    u.fn(P, 'PoolRead::get_method_name_and_type', ret='res', drop_body=True, props=[], ensures=[C('assumed.get_method_name_and_type.' + str(i), t) for i, t in enumerate(iff('r_method_nat(*self, index)'))])
 
     # ---- converters + their accessors, in dependency order
     def conv(name, spec_of_self, getter=None, gspec=None, ty=None, extra=()):
         rw = [(a, b.replace('{T}', ty)) for a, b in tryinto] if ty else []
+        nat = [C('C01.resolve.as_name_and_type.ok-iff-kind-and-both-utf8', 'res.is_ok() <==> (*self matches PoolEntry::NameAndType { name_index, descriptor_index } && r_utf8(*pool, name_index) is Some && r_utf8(*pool, descriptor_index) is Some)'),
+               C('C01.resolve.as_name_and_type.value', 'res matches Ok(v) ==> (*self matches PoolEntry::NameAndType { name_index, descriptor_index } && Some(*v.0) == r_utf8(*pool, name_index) && Some(*v.1) == r_utf8(*pool, descriptor_index))')]
         u.fn(P, f'PoolEntry::{name}', ret='res', opt_rewrites=rw + list(extra), requires=['ent(*pool, ix_) == Some(*self)'] if spec_of_self else [],
              sig_rewrites=[(r'\(&self, pool: &PoolRead\)', '(&self, pool: &PoolRead, Ghost(ix_): Ghost<u16>)')] if spec_of_self else [],
-             ensures=cl(name, iff(spec_of_self.format(p='*pool', i='ix_'))) if spec_of_self else [])
+             ensures=cl(name, iff(spec_of_self.format(p='*pool', i='ix_'))) if spec_of_self else (nat if name == 'as_name_and_type' else []))
         if getter:
             u.fn(P, f'PoolRead::{getter}', ret='res', rewrites=strip + [(rf'\.{name}\(self\)', f'.{name}(self, Ghost(index))')], ensures=cl(getter, iff(gspec)))
 
@@ -209,6 +209,12 @@ def build(u):
     conv('as_package', 'r_package({p}, {i})', 'get_package', 'r_package(*self, index)', ty='PackageName')
     conv('as_module', 'r_module({p}, {i})', 'get_module', 'r_module(*self, index)', ty='ModuleName')
     conv('as_name_and_type', None)
+    # `X.and_then(|(name, desc)| BODY)` -> `match X { Ok((name, desc)) => BODY, Err(e_) => Err(e_) }` (the meaning of Result::and_then; a `?` inside BODY ends the function with the same Err)
+    and_then = [(r'(?s)\{\s*(.*?)\s*\.and_then\(\|\(name, desc\)\| (.*)\)\s*\}\s*$', r'{ match \1 { Ok((name, desc)) => \2, Err(e_) => Err(e_) } }')]
+    u.drop('`X.and_then(|(name, desc)| BODY)` -> `match X { Ok((name, desc)) => BODY, Err(e_) => Err(e_) }` (desugaring of Result::and_then)')
+    u.fn(P, 'PoolEntry::as_name_and_type_', ret='res') if False else None
+    for g, spec in (('get_field_name_and_type', 'r_field_nat(*self, index)'), ('get_method_name_and_type', 'r_method_nat(*self, index)')):
+        u.fn(P, f'PoolRead::{g}', ret='res', rewrites=strip + and_then, ensures=cl(g, iff(spec)))
     conv('as_field_ref', 'r_field_ref({p}, {i})', 'get_field_ref', 'r_field_ref(*self, index)')
     conv('as_method_ref', 'r_method_ref({p}, {i})', 'get_method_ref', 'r_method_ref(*self, index)')
     conv('as_interface_method_ref', 'r_imethod_ref({p}, {i})', 'get_interface_method_ref', 'r_imethod_ref(*self, index)')
